@@ -23,58 +23,69 @@ set_option linter.unusedSimpArgs false
 theorem start_inv (d : Node) (g : G) (h : BInv d g) :
     ∃ d', (bstep (.node d .nil) g .start).1 = .node d' .nil ∧ BInv d' (bstep (.node d .nil) g .start).2 := by
   have hk := h.kind
-  simp only [bstep, start, hk]
+  have hsh : d.shape = .leaf := by simp [Node.shape, Node.isLeaf, hk]
+  simp only [bstep, start, hk, hsh]
   split
   · exact ⟨d, rfl, h⟩
   · split
     · exact ⟨d, rfl, h⟩
     · rename_i h1 h2
       have hi : d.st = .idle := by simpa using h2
-      simp [hi, BInv, G.emit]
+      simp [hi, BInv, G.emit, Node.started, leafEv, hk]
       obtain ⟨a0, a1, a2, a3, a4, a5, a6, a7, a8, a9, a10⟩ := h
       constructor <;> grind
 
 theorem pause_inv (d : Node) (g : G) (h : BInv d g) :
     ∃ d', (bstep (.node d .nil) g .pause).1 = .node d' .nil ∧ BInv d' (bstep (.node d .nil) g .pause).2 := by
   have hk := h.kind
-  simp only [bstep, pause, hk]
+  have hsh : d.shape = .leaf := by simp [Node.shape, Node.isLeaf, hk]
+  simp only [bstep, pause, hk, hsh]
   split
   · exact ⟨d, rfl, h⟩
   · split
     · exact ⟨d, rfl, h⟩
     · rename_i h1 h2
       have hi : d.st = .running := by simpa using h2
-      simp [hi, BInv, G.emit]
+      simp [hi, BInv, G.emit, Node.paused, leafEv, hk]
       obtain ⟨a0, a1, a2, a3, a4, a5, a6, a7, a8, a9, a10⟩ := h
       constructor <;> grind
 
 theorem resume_inv (d : Node) (g : G) (h : BInv d g) :
     ∃ d', (bstep (.node d .nil) g .resume).1 = .node d' .nil ∧ BInv d' (bstep (.node d .nil) g .resume).2 := by
   have hk := h.kind
-  simp only [bstep, resume, hk]
+  have hsh : d.shape = .leaf := by simp [Node.shape, Node.isLeaf, hk]
+  simp only [bstep, resume, hk, hsh]
   split
   · exact ⟨d, rfl, h⟩
   · split
     · exact ⟨d, rfl, h⟩
     · rename_i h1 h2
       have hi : d.st = .pause := by simpa using h2
-      simp [hi, BInv, G.emit]
+      simp [hi, BInv, G.emit, Node.resumed, leafEv, hk]
       obtain ⟨a0, a1, a2, a3, a4, a5, a6, a7, a8, a9, a10⟩ := h
       constructor <;> grind
 
 theorem cancelDispatched_spec (d : Node) :
     (∀ p ∈ (cancelDispatched d).tasks, p ∈ d.tasks ∧ (d.finId ≠ 0 → p.1 ≠ d.finId) ∧ (d.blkId ≠ 0 → p.1 ≠ d.blkId)) ∧
     (cancelDispatched d).st = d.st ∧ (cancelDispatched d).kind = d.kind ∧ (cancelDispatched d).id = d.id := by
-  unfold cancelDispatched cancelId
-  by_cases h1 : d.finId = 0 <;> by_cases h2 : d.blkId = 0 <;> simp [h1, h2] <;> grind
+  simp only [cancelDispatched, List.mem_filter]
+  refine ⟨?_, trivial, trivial, trivial⟩
+  intro p hp
+  have := hp.2
+  simp at this
+  refine ⟨hp.1, fun h e => ?_, fun h e => ?_⟩
+  · rcases this.1 with x | x
+    · exact h x
+    · exact x e
+  · rcases this.2 with x | x
+    · exact h x
+    · exact x e
 
 @[simp] theorem cancelDispatched_kind (d : Node) : (cancelDispatched d).kind = d.kind := (cancelDispatched_spec d).2.2.1
 @[simp] theorem cancelDispatched_st (d : Node) : (cancelDispatched d).st = d.st := (cancelDispatched_spec d).2.1
 @[simp] theorem cancelDispatched_id (d : Node) : (cancelDispatched d).id = d.id := (cancelDispatched_spec d).2.2.2
-@[simp] theorem cancelDispatched_finId (d : Node) : (cancelDispatched d).finId = 0 := by
-  unfold cancelDispatched cancelId; by_cases h1 : d.finId = 0 <;> by_cases h2 : d.blkId = 0 <;> simp [h1, h2]
-@[simp] theorem cancelDispatched_blkId (d : Node) : (cancelDispatched d).blkId = 0 := by
-  unfold cancelDispatched cancelId; by_cases h1 : d.finId = 0 <;> by_cases h2 : d.blkId = 0 <;> simp [h1, h2]
+@[simp] theorem cancelDispatched_finId (d : Node) : (cancelDispatched d).finId = 0 := rfl
+@[simp] theorem cancelDispatched_blkId (d : Node) : (cancelDispatched d).blkId = 0 := rfl
 
 /-- with every queued task tracked, cancelDispatchedCallback() empties the node's queue -/
 theorem cancelDispatched_empty (d : Node)
@@ -93,40 +104,102 @@ theorem cancelDispatched_empty (d : Node)
 theorem filter_isFin_nil (l : List (Nat × TK)) (h : ∀ p ∈ l, p.2.isFin = false) : (l.filter fun p => p.2.isFin) = [] := by
   simp [List.filter_eq_nil_iff]; intro a b hab; have := h _ hab; simpa using this
 
+theorem cancelReplay_spec (c : Cfg) (d : Node) :
+    (∀ p ∈ (cancelReplay c d).tasks, p ∈ d.tasks) ∧ (cancelReplay c d).st = d.st ∧ (cancelReplay c d).kind = d.kind ∧
+    (cancelReplay c d).id = d.id ∧ (cancelReplay c d).finId = d.finId ∧ (cancelReplay c d).blkId = d.blkId := by
+  unfold cancelReplay
+  generalize (if d.isPar = true then c.fixPar else c.fixReplay) = b
+  cases b
+  · exact ⟨fun p hp => hp, rfl, rfl, rfl, rfl, rfl⟩
+  · refine ⟨?_, rfl, rfl, rfl, rfl, rfl⟩
+    intro p hp; simp only [↓reduceIte, List.mem_filter] at hp; exact hp.1
+
+theorem stopped_spec (c : Cfg) (d : Node) (hb : c.fixBlk = true) :
+    (∀ p ∈ (d.stopped c).tasks, p ∈ d.tasks ∧ (d.finId ≠ 0 → p.1 ≠ d.finId) ∧ (d.blkId ≠ 0 → p.1 ≠ d.blkId)) ∧
+    (d.stopped c).st = .stoped ∧ (d.stopped c).kind = d.kind ∧ (d.stopped c).id = d.id ∧ (d.stopped c).finId = 0 ∧ (d.stopped c).blkId = 0 := by
+  simp only [Node.stopped, hb, ↓reduceIte]
+  obtain ⟨r1, r2, r3, r4, r5, r6⟩ := cancelReplay_spec c (cancelDispatched { d with st := St.stoped, tmoAt := none, sleepAt := none, curr := none, held := none, heldPar := [] })
+  refine ⟨?_, by rw [r2]; rfl, by rw [r3]; rfl, by rw [r4]; rfl, by rw [r5]; rfl, by rw [r6]; rfl⟩
+  intro p hp
+  exact (cancelDispatched_spec _).1 p (r1 p hp)
+
+theorem resetted_spec (c : Cfg) (d : Node) :
+    (∀ p ∈ (d.resetted c).tasks, p ∈ d.tasks ∧ (d.finId ≠ 0 → p.1 ≠ d.finId) ∧ (d.blkId ≠ 0 → p.1 ≠ d.blkId)) ∧
+    (d.resetted c).st = .idle ∧ (d.resetted c).kind = d.kind ∧ (d.resetted c).id = d.id ∧ (d.resetted c).finId = 0 ∧ (d.resetted c).blkId = 0 := by
+  obtain ⟨r1, r2, r3, r4, r5, r6⟩ := cancelReplay_spec c d
+  simp only [Node.resetted]
+  refine ⟨?_, trivial, ?_, ?_, rfl, rfl⟩
+  · intro p hp
+    have := (cancelDispatched_spec (cancelReplay c d)).1 p hp
+    rw [r5, r6] at this
+    exact ⟨r1 p this.1, this.2.1, this.2.2⟩
+  · show (cancelDispatched (cancelReplay c d)).kind = d.kind
+    rw [cancelDispatched_kind, r3]
+  · show (cancelDispatched (cancelReplay c d)).id = d.id
+    rw [cancelDispatched_id, r4]
+
+/-- with every queued task tracked, nothing survives the cancellation -/
+theorem tracked_empty (d d' : Node)
+    (sub : ∀ p ∈ d'.tasks, p ∈ d.tasks ∧ (d.finId ≠ 0 → p.1 ≠ d.finId) ∧ (d.blkId ≠ 0 → p.1 ≠ d.blkId))
+    (hf : ∀ p ∈ d.tasks, p.2.isFin = true → p.1 = d.finId ∧ d.finId ≠ 0)
+    (hb : ∀ p ∈ d.tasks, p.2.isBlk = true → p.1 = d.blkId ∧ d.blkId ≠ 0)
+    (ho : ∀ p ∈ d.tasks, p.2.isFin = true ∨ p.2.isBlk = true) : d'.tasks = [] := by
+  cases hl : d'.tasks with
+  | nil => rfl
+  | cons p ps =>
+    have hp : p ∈ d'.tasks := by rw [hl]; simp
+    obtain ⟨h1, h2, h3⟩ := sub p hp
+    rcases ho p h1 with h | h
+    · have := hf p h1 h; exact absurd this.1 (h2 this.2)
+    · have := hb p h1 h; exact absurd this.1 (h3 this.2)
+
 theorem stop_inv (d : Node) (g : G) (h : BInv d g) :
     ∃ d', (bstep (.node d .nil) g .stop).1 = .node d' .nil ∧ BInv d' (bstep (.node d .nil) g .stop).2 := by
   have hk := h.kind
+  have hsh : d.shape = .leaf := by simp [Node.shape, Node.isLeaf, hk]
   obtain ⟨a0, a1, a2, a3, a4, a5, a6, a7, a8, a9, a10⟩ := h
-  simp only [bstep, stop, a3]
+  simp only [bstep, stop, hsh]
   split
   · exact ⟨d, rfl, ⟨a0, a1, a2, a3, a4, a5, a6, a7, a8, a9, a10⟩⟩
   · rename_i h1
     have hu : d.st = .running ∨ d.st = .pause := by
       simp [Node.underway] at h1; rcases hs : d.st <;> simp_all
-    simp only [↓reduceIte, cancelDispatched_kind, hk]
     refine ⟨_, rfl, ?_⟩
-    have hempty : (cancelDispatched { d with st := .stoped, tmoAt := none }).tasks = [] :=
-      cancelDispatched_empty _ (fun p hp hf => (a4 p hp hf).2) (fun p hp hf => ⟨(a5 p hp hf).1, (a5 p hp hf).2.1⟩) a6
-    simp only [BInv, G.emit, cancelDispatched_kind, cancelDispatched_st, hempty]
+    obtain ⟨s1, s2, s3, s4, s5, s6⟩ := stopped_spec g.cfg d a3
+    have hempty : (d.stopped g.cfg).tasks = [] :=
+      tracked_empty d _ s1 (fun p hp hf => (a4 p hp hf).2) (fun p hp hf => ⟨(a5 p hp hf).1, (a5 p hp hf).2.1⟩) a6
     have nofin : (d.tasks.filter fun p => p.2.isFin) = [] := by
       apply filter_isFin_nil; intro p hp
       cases hf : p.2.isFin with
       | false => rfl
       | true => have := a4 p hp hf; grind
+    have hleaf : (d.stopped g.cfg).isLeaf = true := by simp [Node.isLeaf, s3, hk]
+    simp only [BInv, onFinal, leafEv, hk, G.emit, hleaf, ↓reduceIte, beq_self_eq_true, s2, s3, s4, s5, s6, hempty]
     constructor <;> simp_all <;> grind
 
 theorem reset_inv (d : Node) (g : G) (h : BInv d g) :
     ∃ d', (bstep (.node d .nil) g .reset).1 = .node d' .nil ∧ BInv d' (bstep (.node d .nil) g .reset).2 := by
   have hk := h.kind
+  have hl : d.isLeaf = true := by simp [Node.isLeaf, hk]
   obtain ⟨a0, a1, a2, a3, a4, a5, a6, a7, a8, a9, a10⟩ := h
-  simp only [bstep, reset, hk]
+  simp only [bstep, reset, hl, ↓reduceIte]
   split
   · exact ⟨d, rfl, ⟨a0, a1, a2, a3, a4, a5, a6, a7, a8, a9, a10⟩⟩
   · refine ⟨_, rfl, ?_⟩
-    have hempty : (cancelDispatched { d with tmoAt := none }).tasks = [] :=
-      cancelDispatched_empty _ (fun p hp hf => (a4 p hp hf).2) (fun p hp hf => ⟨(a5 p hp hf).1, (a5 p hp hf).2.1⟩) a6
-    simp only [BInv, G.emit, cancelDispatched_kind, hempty]
-    constructor <;> simp_all <;> grind
+    obtain ⟨s1, s2, s3, s4, s5, s6⟩ := resetted_spec (g.emit (Ev.rst d.id)).cfg d
+    have hempty : (d.resetted (g.emit (Ev.rst d.id)).cfg).tasks = [] :=
+      tracked_empty d _ s1 (fun p hp hf => (a4 p hp hf).2) (fun p hp hf => ⟨(a5 p hp hf).1, (a5 p hp hf).2.1⟩) a6
+    have e : (leafEv d (g.emit (Ev.rst d.id)) 4) = (g.emit (Ev.rst d.id)).emit (.dcb d.id 4) := by simp [leafEv, hk]
+    rw [e]
+    refine ⟨s4.trans a0, s3.trans a1, a2, a3, ?_, ?_, ?_, ?_, ?_, ?_, ?_⟩
+    · intro p hp; rw [hempty] at hp; cases hp
+    · intro p hp; rw [hempty] at hp; cases hp
+    · intro p hp; rw [hempty] at hp; cases hp
+    · have hempty' : (Node.resetted g.cfg d).tasks = [] := hempty
+      simp [hempty', G.emit, a0]
+    · left; simp [G.emit, a0]
+    · intro s w st' hm; simp [G.emit] at hm; exact a9 s w st' hm
+    · intro w st' hm; simp [G.emit] at hm; exact a10 w st' hm
 
 theorem finish_inv (d : Node) (g : G) (s : Bool) (w : Nat) (h : BInv d g) :
     BInv (finish d .nil g s w).1 (finish d .nil g s w).2.2.1 ∧ (finish d .nil g s w).2.1 = .nil := by
@@ -200,7 +273,7 @@ theorem fire_inv (d : Node) (g : G) (h : BInv d g) :
     ∃ d', (bstep (.node d .nil) g .fire).1 = .node d' .nil ∧ BInv d' (bstep (.node d .nil) g .fire).2 := by
   simp only [bstep, modifyAt]
   split
-  · simp only [onTimer]
+  · simp only [onTimer, finish3]
     have h' : BInv { d with tmoAt := none } g := h
     have := finish_inv { d with tmoAt := none } g false 1 h'
     exact ⟨_, by simp only [Bool.false_eq_true, ↓reduceIte]; rw [this.2], this.1⟩
